@@ -136,6 +136,10 @@ class SoftwareManager:
                 config=software_config,
             )
 
+        if software.name in self.software:
+            # installing software that is already present (e.g. system software declared again in a config to give
+            # it options) replaces the installed instance in every registry instead of leaving a stale duplicate
+            self.uninstall(software.name)
         software.parent = self.node
         if isinstance(software, Application):
             self.node.applications[software.uuid] = software
